@@ -16,6 +16,8 @@ from py_ballisticcalc.conditions import Atmo
 from py_ballisticcalc.trajectory_calc import _trajectory_calc as tcmod
 import py_ballisticcalc.trajectory_calc as tcpkg
 
+from vf import build
+
 
 class StepBudgetExceeded(BaseException):
     """Raised from inside the integration loop when the step budget of the bounded-termination property is spent."""
@@ -38,6 +40,8 @@ class StepTrace:
 
         def should_record(self_, position, velocity, mach, time):
             data = orig(self_, position, velocity, mach, time)
+            if build.IN_DECOY:
+                return data
             me.calls += 1
             if me.keep:
                 me.points.append((time, position.x, position.y, position.z, velocity.x, velocity.y, velocity.z, mach,
@@ -65,6 +69,8 @@ class StepCounter:
         orig, me = self._orig, self
 
         def counted(self_, altitude):
+            if build.IN_DECOY:
+                return orig(self_, altitude)
             me.steps += 1
             if altitude < me.alt_min:
                 me.alt_min = altitude
@@ -112,6 +118,8 @@ class RowContracts:
             icontract = None
 
         def evaluate(args, result):
+            if build.IN_DECOY:
+                return
             me.rows += 1
             me.rows_by_flag[int(args["flag"])] = me.rows_by_flag.get(int(args["flag"]), 0) + 1
             for name, fn in me.conditions:
@@ -171,6 +179,7 @@ def quiet():
 
 
 def reset_all():
+    build._WARM.clear()  # pylint: disable=protected-access
     PreferredUnits.defaults()
     pb.reset_globals()
 
